@@ -14,6 +14,7 @@ CLAIMED = {
  "C10": ("release step at every writer begin under metalock, every exit of a read transaction reaches RemoveReadonlyTXID, same registration key, ReleasePendingPages tabulated for 0/1/2 readers, order-dependent reads of the reader list preceded by a sort, counts published before the writer lock is released", "4 C10"),
  "C11": ("checksum covers every byte before it on all gc architectures, Validate truth table (8 rows), validate-before-use in page-size probing and Open, decision tables of db.mmap / db.meta() / getPageSize, every rejecting exit of Open closes and returns an error", "4 C11"),
  "C12": ("version-2 layout table of the 5 mapped structs on all gc architectures, format constants, checksum algorithm and coverage, writer/reader field pairing, 0xFFFF convention, initial 4-page layout evaluated from init, checksum-after-mutation", "4 C12"),
+ "C13": ("NARROW claim — the structural skeleton that makes the free list independent of how it was obtained: freepages() scans exactly [2, high-water mark) minus what the walk from the root reached; loadFreelist chooses persisted-vs-rebuilt by hasSyncedFreelist, once, with the backend from db.FreelistType; Open flushes a missing free list exactly when NoFreelistSync is off; re-evaluated: both NoFreelistSync arms redefine the freelist pointer, backend agreement, Init forgets previous content, rollback reload by the same predicate, syncs skipped only under NoSync. Equality of contents / API results across option assignments is NOT decided", "5 and 8.2"),
  "C14": ("backup cut from tx.meta (never db.meta()), both meta pages checksummed after their last change with page 0 keeping the higher txid, data window [2*pageSize, tx.Size()) and byte accounting on the success path and on each failing write (WriteTo evaluated symbolically), CopyFile closes the destination and returns the close error", "4 C14"),
  "C15": ("SetSequence(seq) after every CreateBucket in both arms with seq = Sequence() of the reported bucket, one captured transaction cell re-assigned after an intermediate commit, source flows only into walk -> View and is opened ReadOnly by the CLI, callback/walk errors abort before the final commit", "4 C15"),
  "C18": ("the size handed to file.Truncate is compared with / clamped to db.MaxSize on every path (windows: in db.mmap before mapping), size-limit error raised before remap and before the high-water mark moves and propagated unchanged, DB.MaxSize has Options.MaxSize as its only source", "4 C18"),
@@ -32,9 +33,7 @@ CLAIMED = {
 NOT_YET = {}  # filled below for properties whose rules are not implemented yet
 
 ALL = ["C%02d" % i for i in range(1, 21)]
-NA = {
- "C13": "Equality of API results across option assignments and reopen schedules is a relation between runtime contents; no structural clause of it is a necessary condition in its own right. The option-dependent shapes that matter are owned by and evaluated under C07.R3 (freelist pointer redefined in both NoFreelistSync arms), C09.R2 (backends share one policy implementation), C01.R2 (sync skippable only under NoSync), C01.R4 (NoGrowSync guards only truncate+sync). See DESIGN.md §5.",
-}
+NA = {}
 
 def main():
     checks = []
